@@ -240,6 +240,13 @@ func (vc *VC) generate() (err error) {
 			vc.assumes[fmt.Sprintf("%s: ghost code anchored at call %s#%d, which the current body does not have (ignored)", vc.key, c.Callee, c.CallK)] = true
 		}
 	}
+	for _, li := range vc.loops {
+		if len(li.backReach) > 0 {
+			vc.curBlock = nil
+			vc.curReach = or(li.backReach...)
+			vc.oblige("cover", fmt.Sprintf("loop-%d-can-iterate", li.ordinal), "false", vc.loopPos(li)).Expect = "fail"
+		}
+	}
 	// vacuity: some return must be reachable under the precondition and all assumptions made
 	vc.curBlock = nil
 	vc.curReach = or(vc.retReach...)
@@ -613,6 +620,11 @@ func (vc *VC) backEdge(li *loopInfo, cond Term) {
 	ctx.loopScope = pos
 	ctx.loopSeen = li.seen
 	ctx.curLoop = li
+	// vacuity: some back edge of an annotated loop must be takeable under the invariant and what the body assumes
+	// (a contradictory body would preserve any invariant)
+	if len(li.invs) > 0 && len(vc.inl) == 0 {
+		li.backReach = append(li.backReach, vc.curReach)
+	}
 	for i, c := range li.invs {
 		vc.oblige("inv-pres", fmt.Sprintf("%d.%s", li.ordinal, labelOr(c.Label, i)), ctx.formula(c.E), pos)
 	}
